@@ -48,6 +48,7 @@ def readBuckets : Op → List Bytes
   | .getObject b _ | .headObject b _ => [b]
   | .copyObject _ sb _ _ _ => [sb]
   | .uploadPartCopy _ sb .. => [sb]
+  | .createMultipartUpload b .. => [b]
   | _ => []
 
 /-- the upload the operation is addressed to: read its ownership record, own its parts and the temp file drawn -/
